@@ -56,8 +56,8 @@ def strCand (bytes : List Nat) : Nat :=
 inductive Op where
   | gen (kind : Nat) (cands : Nat → Nat)   -- Generate / AllocateNodeID; `cands a` = candidate of attempt `a`
   | rel (kind id : Nat)                     -- Release(id)
-  | relOwn (kind : Nat)                     -- Release of the id this thread obtained last (NodeIDAllocator.Release)
-  | renewOwn (kind : Nat)                   -- NodeIDAllocator.renewNodeID
+  | relOwn                                  -- Release of the id this thread obtained last (NodeIDAllocator.Release)
+  | renewOwn                                -- NodeIDAllocator.renewNodeID (heartbeat) for the id obtained last
 
 inductive PC where
   | try_ (att : Nat)      -- about to mark candidate number `att`
@@ -67,7 +67,7 @@ structure Thread where
   inst : Nat              -- generator instance (owner of the fallback mutex)
   ops : List Op
   pc : PC
-  own : Option Nat        -- id obtained last and not released through relOwn
+  own : Option Key        -- (kind, id) obtained last and not released through relOwn
 
 /-- What an outside observer sees, in the order it happens. -/
 inductive Ev where
@@ -110,7 +110,7 @@ def failEvs (P : Params) (tid kind a : Nat) : List Ev :=
 def okCfg (P : Params) (c : Cfg) (tid kind id : Nat) (t : Thread) (locks : List Nat) : Cfg :=
   { c with store := put c.store (kind, id) (expiry c.now (P.ttl kind)),
            locks := locks,
-           threads := upd c.threads tid { finishOp t with own := some id },
+           threads := upd c.threads tid { finishOp t with own := some (kind, id) },
            trace := c.trace ++ [.ok tid kind id] }
 
 def failCfg (P : Params) (c : Cfg) (tid kind a : Nat) (t : Thread) : Cfg :=
@@ -125,20 +125,20 @@ def stepThread (P : Params) (c : Cfg) (tid : Nat) : Cfg :=
     { c with store := erase c.store (kind, id),
              threads := upd c.threads tid (finishOp (c.threads tid)),
              trace := c.trace ++ [.rel tid kind id] }
-  | .relOwn kind :: _ =>
+  | .relOwn :: _ =>
     match (c.threads tid).own with
     | none => { c with threads := upd c.threads tid (finishOp (c.threads tid)), trace := c.trace ++ [.nop tid] }
-    | some id =>
-      { c with store := erase c.store (kind, id),
+    | some k =>
+      { c with store := erase c.store k,
                threads := upd c.threads tid { finishOp (c.threads tid) with own := none },
-               trace := c.trace ++ [.rel tid kind id] }
-  | .renewOwn kind :: _ =>
+               trace := c.trace ++ [.rel tid k.1 k.2] }
+  | .renewOwn :: _ =>
     match (c.threads tid).own with
     | none => { c with threads := upd c.threads tid (finishOp (c.threads tid)), trace := c.trace ++ [.nop tid] }
-    | some id =>
-      { c with store := if P.renewShared then put c.store (kind, id) (expiry c.now (P.ttl kind)) else c.store,
+    | some k =>
+      { c with store := if P.renewShared then put c.store k (expiry c.now (P.ttl k.1)) else c.store,
                threads := upd c.threads tid (finishOp (c.threads tid)),
-               trace := c.trace ++ [.rnw tid kind id] }
+               trace := c.trace ++ [.rnw tid k.1 k.2] }
   | .gen kind cands :: _ =>
     match (c.threads tid).pc with
     | .try_ a =>
